@@ -10,10 +10,12 @@ import (
 
 	"github.com/DataDog/sketches-go/ddsketch"
 	"github.com/DataDog/sketches-go/ddsketch/mapping"
+	"github.com/DataDog/sketches-go/ddsketch/pb/sketchpb"
 	"github.com/DataDog/sketches-go/ddsketch/stat"
 	"github.com/DataDog/sketches-go/ddsketch/store"
 
 	"verif/mc"
+	"verif/model"
 )
 
 // skChangeMap: a = b.ChangeMapping(target, store kind of a, scale). The bins
@@ -478,6 +480,46 @@ func constructorShard() mc.Shard {
 					fail("%s(%v, 0.5) refused a base above one: %v", c.name, g, err)
 				}
 			}
+		}
+		// the same bases arriving in serialised form: protobuf messages and binary mapping blocks
+		for _, ip := range []sketchpb.IndexMapping_Interpolation{sketchpb.IndexMapping_NONE, sketchpb.IndexMapping_LINEAR, sketchpb.IndexMapping_CUBIC} {
+			for _, g := range []float64{1, 0.5, 0, -2, math.Nextafter(1, 0), math.Inf(-1)} {
+				pm := &sketchpb.IndexMapping{Gamma: g, IndexOffset: 0.5, Interpolation: ip}
+				res.Evaluations += 4
+				if _, err := mapping.FromProto(pm); err == nil {
+					fail("mapping.FromProto(%v) accepted a base not above one", pm)
+				}
+				if sk, err := ddsketch.FromProto(&sketchpb.DDSketch{Mapping: pm}); err == nil {
+					fail("ddsketch.FromProto of a message whose mapping is %v returned a sketch (mapping %v) and no error", pm, sk.IndexMapping)
+				}
+				if _, err := ddsketch.FromProtoWithStoreProvider(&sketchpb.DDSketch{Mapping: pm, ZeroCount: 1}, store.SparseStoreConstructor); err == nil {
+					fail("ddsketch.FromProtoWithStoreProvider of a message whose mapping is %v returned no error", pm)
+				}
+				// binary mapping block: flag, gamma, offset (both little-endian float64)
+				flagByte := map[sketchpb.IndexMapping_Interpolation]byte{sketchpb.IndexMapping_NONE: 0<<2 | 2, sketchpb.IndexMapping_LINEAR: 1<<2 | 2, sketchpb.IndexMapping_CUBIC: 3<<2 | 2}[ip]
+				blk := model.AppendFloat64LE(model.AppendFloat64LE([]byte{flagByte}, g), 0.5)
+				if _, err := ddsketch.DecodeDDSketch(blk, store.DenseStoreConstructor, nil); err == nil {
+					fail("DecodeDDSketch of a mapping block with base %v (% x) returned no error", g, blk)
+				}
+			}
+			for _, g := range []float64{1.02, 3} {
+				pm := &sketchpb.IndexMapping{Gamma: g, IndexOffset: 0.5, Interpolation: ip}
+				res.Evaluations += 2
+				if _, err := mapping.FromProto(pm); err != nil {
+					fail("mapping.FromProto(%v) refused a base above one: %v", pm, err)
+				}
+				flagByte := map[sketchpb.IndexMapping_Interpolation]byte{sketchpb.IndexMapping_NONE: 0<<2 | 2, sketchpb.IndexMapping_LINEAR: 1<<2 | 2, sketchpb.IndexMapping_CUBIC: 3<<2 | 2}[ip]
+				blk := model.AppendFloat64LE(model.AppendFloat64LE([]byte{flagByte}, g), 0.5)
+				if sk, err := ddsketch.DecodeDDSketch(blk, store.DenseStoreConstructor, nil); err != nil {
+					fail("DecodeDDSketch of a mapping block with base %v (% x) failed: %v", g, blk, err)
+				} else if gg, oo := mapParams(sk.IndexMapping); gg != g || oo != 0.5 || int(sk.IndexMapping.ToProto().Interpolation) != int(ip) {
+					fail("DecodeDDSketch of a mapping block with base %v offset 0.5 kind %v gave %v", g, ip, sk.IndexMapping.ToProto())
+				}
+			}
+		}
+		res.Evaluations++
+		if _, err := mapping.FromProto(nil); err == nil {
+			fail("mapping.FromProto(nil) returned no error")
 		}
 		for _, c := range []float64{-1, -5e-324, math.Inf(-1)} {
 			res.Evaluations++
